@@ -272,23 +272,6 @@ void uninitialized_shift_left(T *first, SizeType n) noexcept {
   amc::uninitialized_relocate_n(first, n, first - 1);
 }
 
-/// Construct at 'pos' the T from 'args' parameters, shifting 'n' elements starting at 'pos' to the right
-template <class T, class SizeType, class... Args>
-inline void emplace_n(T *pos, SizeType n, Args &&...args) {
-  if (n == 0) {
-    amc::construct_at(pos, std::forward<Args>(args)...);
-  } else {
-    shift_right(pos, n);
-    destroy_after_shift(pos);
-    try {
-      amc::construct_at(pos, std::forward<Args>(args)...);
-    } catch (...) {
-      uninitialized_shift_left(pos + 1, n);
-      throw;
-    }
-  }
-}
-
 template <class T, class V, typename std::enable_if<!amc::is_trivially_relocatable<T>::value, bool>::type = true>
 inline void assign_after_shift(T *pos, V &&v) {
   *pos = std::forward<V>(v);
@@ -333,6 +316,25 @@ class ElemStorage {
  private:
   alignas(T) std::uint8_t _el[sizeof(T)];
 };
+
+/// Construct at 'pos' the T from 'args' parameters, shifting 'n' elements starting at 'pos' to the right
+/// The new element is built before the shift, as 'args' may refer to one of the shifted elements.
+template <class T, class SizeType, class... Args>
+inline void emplace_n(T *pos, SizeType n, Args &&...args) {
+  if (n == 0) {
+    amc::construct_at(pos, std::forward<Args>(args)...);
+  } else {
+    ElemStorage<T> e;
+    amc::construct_at(e.ptr(), std::forward<Args>(args)...);
+    shift_right(pos, n);
+    try {
+      relocate_after_shift(e.ptr(), pos);
+    } catch (...) {
+      shift_left(pos + 1, n);
+      throw;
+    }
+  }
+}
 
 /// This class represents a merge of a pointer and some inline storage elements.
 /// Thanks to this optimization, SmallVector behaves like a string type with SSO
@@ -1226,6 +1228,10 @@ class VectorImpl : public VectorDestr<T, Alloc, SizeType, WithInlineElements, Gr
 
   iterator insert(const_iterator position, const_reference v) {
     assert(position >= this->cbegin() && position <= cend());
+    if (std::addressof(v) >= position && std::addressof(v) < cend()) {
+      // v is one of the elements that are about to be shifted: copy it first
+      return this->emplace(position, T(v));
+    }
     const_reference newV = this->adjustCapacity(static_cast<uintmax_t>(this->size()) + 1U, v, &position);
     iterator pos = const_cast<iterator>(position);
     insert_n(pos, this->size() - (pos - this->begin()), newV);
@@ -1241,6 +1247,10 @@ class VectorImpl : public VectorDestr<T, Alloc, SizeType, WithInlineElements, Gr
   iterator insert(const_iterator position, size_type count, const_reference v) {
     assert(position >= this->cbegin() && position <= cend());
     iterator pos;
+    if (count > 0 && std::addressof(v) >= position && std::addressof(v) < cend()) {
+      // v is one of the elements that are about to be shifted: copy it first
+      return insert(position, count, const_reference(T(v)));
+    }
     if (count > 0) {
       const_reference newV = this->adjustCapacity(static_cast<uintmax_t>(this->size()) + count, v, &position);
       pos = const_cast<iterator>(position);
